@@ -31,6 +31,14 @@ PROPS = {
                 partial=["segmentation independence: by correspondence (every stream read under several chunkings vs the flat model), not by a Lean refinement theorem"]),
     "C06": dict(lean=["Mav.Props.C06"], groups=[("C06", sizes(120, 4000))],
                 trusted=["SHA-256 treated as an arbitrary function H in theorems; 'never delivered' rests on the 48-bit MAC assumption"]),
+    "C09": dict(lean=["Mav.Props.C09"], groups=[("C09", sizes(100, 600))],
+                trusted=["streamwriter model hand-written (Mav/Model/Writer.lean), tied by TIE-D write histories and source pins"]),
     "C07": dict(lean=["Mav.Props.C07"], groups=[("C07", sizes(150, 5000))],
                 assumptions=["wall clock non-decreasing (writer timestamps)"]),
 }
+
+import os as _os
+_LEAN = _os.path.join(_os.path.dirname(_os.path.dirname(_os.path.abspath(__file__))), "lean")
+for _pid, _c in PROPS.items():
+    if _os.path.exists(_os.path.join(_LEAN, "Mav", "Pins", _pid + ".lean")) and "Mav.Pins." + _pid not in _c.get("lean", []):
+        _c.setdefault("lean", []).append("Mav.Pins." + _pid)
